@@ -53,10 +53,14 @@ def kwargs_of(case):
 
 
 class Result:
-    __slots__ = ('fs', 'sim', 'exc', 'crashed', 'entered', 'body_done', 'pre_inos')
+    __slots__ = ('fs', 'sim', 'exc', 'crashed', 'entered', 'body_done', 'pre_inos', 'pre_state')
 
 
-def run_save(case, plan=None, log=None, hooks=None, fs=None):
+WARM_BYTES = b'EARLIER SAVE BY THE SAME SAVER'
+WARM_TEXT = 'EARLIER SAVE BY THE SAME SAVER'
+
+
+def run_save(case, plan=None, log=None, hooks=None, fs=None, only_warmup=False):
     dest_arg, dest_abs, part_abs = paths(case)
     if fs is None:
         fs = simfs.SimFS(cwd=DIR, umask=case.get('umask', 0o022))
@@ -74,11 +78,33 @@ def run_save(case, plan=None, log=None, hooks=None, fs=None):
     fu.os = simos
     fu.fcntl = simfs.SimFcntl(sim)
     fu.open = simfs.make_builtin_open(simos)
+    for kind, e in (case.get('env') or {}).items():
+        sim.persistent[kind] = ('errno', e)
     r = Result()
-    r.pre_inos = {p: fs.dir.get(p) for p in (dest_abs, part_abs)}
     r.fs, r.sim, r.exc, r.crashed, r.entered, r.body_done = fs, sim, None, False, False, False
+    saver = None
     try:
-        with fu.atomic_save(dest_arg, **kwargs_of(case)) as f:
+        saver = fu.atomic_save(dest_arg, **kwargs_of(case))
+        # instance reuse: the same AtomicSaver object completed earlier saves (not judged, no faults)
+        sim.armed = False
+        for _w in range(case.get('reuse', 0)):
+            with saver as f:
+                f.write(WARM_TEXT if case.get('text_mode') else WARM_BYTES)
+        sim.armed = True
+    except BaseException as e:
+        r.exc = e
+        sim.armed = True
+    sim.publish, sim.binding_changes, sim.writes_after_publish = [], {}, 0
+    if case.get('reuse') and r.exc is None:
+        fs.settle()                  # the earlier saves are long done and on disk
+    r.pre_inos = {p: fs.dir.get(p) for p in (dest_abs, part_abs)}
+    r.pre_state = {'dest': fs.read_path(dest_abs), 'dest_mode': fs.mode_of(dest_abs),
+                   'part': fs.read_path(part_abs), 'part_mode': fs.mode_of(part_abs)}
+    if only_warmup or r.exc is not None:
+        sim.dispose()
+        return r
+    try:
+        with saver as f:
             r.entered = True
             for step in case['body']:
                 if step[0] == 'write':
@@ -170,6 +196,11 @@ def gen_workload(rng, faults=False):
     if rng.random() < 0.6:
         case['dest_initial'] = {'data': bytes(rng.randrange(256) for _ in range(rng.randint(0, 12))).hex(),
                                 'mode': rng.choice([0o600, 0o644, 0o664, 0o444])}
+    if rng.random() < 0.12:
+        case['reuse'] = rng.choice([1, 1, 2])        # the saver object already completed earlier saves
+    if rng.random() < 0.1:
+        import errno as _e
+        case['env'] = {'link': rng.choice([_e.EPERM, _e.EMLINK])}   # a file system without hard links
     if faults:
         case['file_perms'] = rng.choice([None, None, 0o600, 0o644, 0o666, 0o755])
         case['overwrite_part'] = rng.random() < 0.3
